@@ -151,7 +151,7 @@ type Facts struct {
 }
 
 func NewFacts() *Facts {
-	return &Facts{consts: map[constKey]*ssa.Const{}, states: map[*ssa.Function]map[*ssa.BasicBlock]DNF{}, Cap: 24}
+	return &Facts{consts: map[constKey]*ssa.Const{}, states: map[*ssa.Function]map[*ssa.BasicBlock]DNF{}, Cap: 32}
 }
 
 // Canon interns constants and strips value-preserving wrappers.
@@ -393,17 +393,51 @@ func prune(d DNF, cap int) DNF {
 			out = append(out, c)
 		}
 	}
-	if len(out) > cap {
-		// widen: keep only the facts common to all disjuncts
-		m := out[0].clone()
-		for _, c := range out[1:] {
-			for f := range m {
-				if !c.Has(f) {
-					delete(m, f)
+	for len(out) > cap {
+		if cap <= 1 {
+			m := out[0].clone()
+			for _, c := range out[1:] {
+				for f := range m {
+					if !c.Has(f) {
+						delete(m, f)
+					}
+				}
+			}
+			return DNF{m}
+		}
+		// widen: merge the two disjuncts that lose the fewest facts when replaced by their intersection
+		bi, bj, best := -1, -1, 1<<30
+		for i := 0; i < len(out); i++ {
+			for j := i + 1; j < len(out); j++ {
+				common := 0
+				for f := range out[i] {
+					if out[j].Has(f) {
+						common++
+					}
+				}
+				loss := len(out[i]) + len(out[j]) - 2*common
+				if loss < best {
+					bi, bj, best = i, j, loss
 				}
 			}
 		}
-		return DNF{m}
+		m := Conj{}
+		for f := range out[bi] {
+			if out[bj].Has(f) {
+				m[f] = struct{}{}
+			}
+		}
+		var next DNF
+		for k, c := range out {
+			if k == bi || k == bj {
+				continue
+			}
+			if m.subsetOf(c) {
+				continue // subsumed by the merged disjunct
+			}
+			next = append(next, c)
+		}
+		out = append(next, m)
 	}
 	return out
 }
